@@ -102,7 +102,7 @@ static void run_history(const std::vector<std::string>& lines, int fd) {
         if (o.var == 1) { q = new Grid(sn); q->add_congruences(c.minimized_congruences()); }
         else if (o.var == 2) { if (c.is_empty()) q = new Grid(sn, EMPTY); else { q = new Grid(sn, EMPTY); q->add_grid_generators(c.grid_generators()); } }
         else if (o.var == 3) { q = new Grid(sn); Congruence_System cs = c.congruences(); for (Congruence_System::const_iterator i = cs.begin(); i != cs.end(); ++i) q->add_congruence(*i); (void) q->grid_generators(); }
-        else { if (c.is_empty()) q = new Grid(sn, EMPTY); else { q = new Grid(c.minimized_grid_generators()); if (q->space_dimension() < sn) q->add_space_dimensions_and_project(sn - q->space_dimension()); (void) q->minimized_congruences(); } }
+        else { if (c.is_empty()) q = new Grid(sn, EMPTY); else { q = new Grid(sn, EMPTY); q->add_grid_generators(c.minimized_grid_generators()); (void) q->minimized_congruences(); } }
         delete d.p; d.p = q; }
       else if (op == "dumpload") { std::stringstream ss; d.p->ascii_dump(ss); std::string t1 = ss.str(); Grid* q = new Grid(0); bool ok = q->ascii_load(ss); std::stringstream s2; q->ascii_dump(s2);
         ri = (ok ? 1 : 0) + (s2.str() == t1 ? 2 : 0) + (q->OK() ? 4 : 0); Slot& tgt = S[o.src > 0 ? o.src : o.dst]; delete tgt.p; tgt.p = q; }
